@@ -16,6 +16,7 @@ Agree(r) == \A i \in 1..Len(r.variants) : Same(r.variants[1], r.variants[i])
 CssModeOk(r) ==
   /\ (r.sassonly => r.ascss.outcome = "error")
   /\ (r.plain => Same(r.ascss, r.variants[1]))
+  /\ r.ascss2.outcome = r.ascss.outcome        \* a statement at-rule in front ('@layer a, b;') does not change what CSS mode accepts
 
 Allowed(r) == Agree(r) /\ CssModeOk(r)
 
